@@ -137,6 +137,23 @@ impl SecondaryTransaction {
                 });
         }
 
+        // A row handler names a row-set of the snapshot the DELETE's scan has pinned. If a
+        // compaction has replaced that row-set since (it cannot any more now: the table lock is
+        // held), the delete vector would point nowhere and the rows would come back.
+        if !delete_split_map.is_empty() {
+            let current = self.version.pin();
+            let live = current.snapshot.get_rowsets_of(self.table.table_id());
+            if let Some(gone) = delete_split_map
+                .keys()
+                .find(|r| !live.is_some_and(|s| s.contains(r)))
+            {
+                return Err(crate::storage::TracedStorageError::not_found(
+                    "rowset (compacted while the DELETE was running, retry the statement)",
+                    gone,
+                ));
+            }
+        }
+
         let rowsets = std::mem::take(&mut self.to_be_committed_rowsets);
 
         let mut dvs = vec![];
